@@ -1045,7 +1045,7 @@ func stderrTail(r vh.Result) string {
 func run(c Case) *vh.Violation {
 	k := vh.Pick(5, 12)
 	if isReplay() {
-		k = 12 // saved order-dependent findings: a dependent outcome survives with probability 2^-11
+		k = 12 // saved order-dependent findings are padded to maps of >=9 entries: a dependent outcome survives with probability 2^-11
 	}
 	if c.K >= 2 {
 		k = c.K // killers of deterministic mutants need no more than two runs
@@ -1216,6 +1216,6 @@ func TestProp(t *testing.T) {
 	if _, err := os.Stat(vh.SUT()); err != nil {
 		t.Skipf("mockery binary missing: %v", err)
 	}
-	vh.Note("k=%d pristine runs per case (replays: 12) + 2 reruns over run 1's output; an outcome depending on one binary order choice survives with probability 2^-(k-1)", vh.Pick(5, 12))
+	vh.Note("k=%d pristine runs per case (saved cases: 12 unless the case says otherwise) + 2 reruns over the output. Go ranges over a map of <=8 entries from a random slot of its single bucket, so only rotations of the insertion order occur: two given keys swap with probability d/8 per run (d = their distance in insertion order; 1/8 for a two-entry map). Measured on builds with the repairs reverted: 0.27 (nested recursive packages) and 0.38 (shared remote template) per run for the minimal cases, 0.5 once the map has >=9 entries. All k runs agree on a p-dependent outcome with probability (1-p)^k+p^k: k=5: 0.51 (p=1/8), 0.21 (p=0.27), 0.06 (p=1/2); k=12: 0.20, 0.023, 0.0005", vh.Pick(5, 12))
 	vh.Main(t, vh.Check[Case]{Gen: gen, Run: run})
 }
